@@ -100,5 +100,15 @@ Definition run_rcase (op : N) : reader (list N) :=
   | 105%N => (* is c' the flattened graph of c under the renaming table f *)
       c <- rd_cfg ;; c' <- rd_cfg ;; f <- rd_nats ;;
       ret (en_bool (wf c) ++ en_bool (wf c') ++ en_bool (flat_ofb c c' f))
+  | 106%N => (* schedule with shutdown phases: wf, plainH, solver's own check, slack of the main loops, S, E *)
+      c <- rd_cfg ;;
+      let '(lS, lE) := solveH c in
+      ret (en_bool (wf c) ++ en_bool (plainH c) ++ en_bool (is_scheduleHb c lS lE)
+           ++ en_bool (forallb (fun n => negb (j_sched (jc c n)) ||
+                                 match j_timeout (jc c n) with
+                                 | Some T => N.ltb (maxl (tab lS n) (map (tab lE) (members c n))) (tab lS n + T)
+                                 | None => true
+                                 end) (all_ids c))
+           ++ lS ++ lE)
   | _ => fun _ => None
   end.
